@@ -41,6 +41,8 @@ type RequestRouteInfo struct {
 	RemoteAddr string
 	URLHost    string
 	Endpoint   string
+	// RouteID identifies the registration of the route selected for the request.
+	RouteID uint64
 }
 
 type (
